@@ -20,6 +20,18 @@ def judge(v, o):
         out.append(("CoerceBool value", exp["bool"], ob["bool"]))
     if "printed" in ob and "str" in ob and bytes(ob["printed"]) != bytes(ob["str"]):
         out.append(("printed form differs from CoerceString", common.show(bytes(ob["str"])), common.show(bytes(ob["printed"]))))
+    if "use_panic" in ob:
+        out.append(("panic when a template uses the value as a number", "no panic", ob["use_panic"]))
+    if "plus0" in ob and "any" not in exp["num"]:
+        if common.normval(ob["plus0"]) != common.normval(exp["num"]) and exp["num"].get("q") != 0:      # -0 aside
+            out.append(("value + 0 in a template differs from the coerced number", exp["num"], ob["plus0"]))
+        q = exp["num"].get("q")
+        if q is not None and "cmp" in ob:
+            lt, gt = q < 80, q > 80                                   # 1.25 on the 1/64 grid
+            want = [lt, gt, lt, gt, gt or q == 80, lt or q == 80]
+            want[4], want[5] = (80 >= q), (80 <= q)
+            if list(ob["cmp"]) != want:
+                out.append(("ordering against 1.25 in a template differs from the coerced number", {"num": exp["num"], "want": want}, ob["cmp"]))
     return out
 
 
